@@ -26,8 +26,6 @@ PANIC_TABLE = [
     ('crux_core::bridge::registry::ResolveRegistry::resume', 'expect', 'PoisonError', 'lock poisoning'),
     ('crux_core::bridge::registry::ResolveRegistry::register', 'expect', 'TryFromIntError', 'EffectId overflow: more than u32::MAX entries in the slab'),
     ('crux_core::bridge::request_serde::ResolveSerialized::resolve', 'panic', 'unreachable', 'unreachable!() after mem::replace of a value just matched as Once'),
-    ('crux_core::bridge::registry::ResolveRegistry::resume', 'panic', 'panic', 'documented panic: the id does not name an outstanding request '
-     '(outside the property\'s input domain; API doc: "else the core will panic")'),
 ]
 
 
